@@ -267,12 +267,12 @@ Section P.
     induction ids as [|i rest IH]; intros f s corrupted f' s' r H; simpl in H.
     - inversion H; subst. apply frame_refl.
     - destruct (get_statepoint f s false i) as [s1 [sp|e]] eqn:Eg.
-      + destruct (relocate f i (Cache.cid frepr sp)) as [f1|] eqn:Em; [|eapply IH; eauto].
+      + destruct (is_objb sp); simpl negb in H; cbv iota in H; [|eapply IH; eauto].
+        destruct (relocate f i (Cache.cid frepr sp)) as [f1|] eqn:Em; [|eapply IH; eauto].
         pose proof (frame_relocate _ _ _ _ Em) as W1.
         destruct (reinit f1 s1 sp) as [[f2 s2] ok] eqn:Er.
         pose proof (frame_reinit _ _ _ _ _ _ Er) as W2.
-        destruct sp; try (eapply frame_trans; [exact W1|]; eapply frame_trans; [exact W2|]; eapply IH; exact H).
-        eapply frame_trans; [exact W1|]. eapply IH; exact H.
+        eapply frame_trans; [exact W1|]. eapply frame_trans; [exact W2|]. eapply IH; exact H.
       + eapply IH; eauto.
   Qed.
 
@@ -310,12 +310,13 @@ Section P.
     - inversion E; subst. exact H.
     - destruct (get_statepoint f s false i) as [s1 [sp|e]] eqn:Eg.
       + assert (H1 : Inv f s1) by (split; [eapply get_statepoint_false_sound; eauto|exact (proj2 H)]).
+        destruct (is_objb sp); simpl negb in E; cbv iota in E; [|eapply IH; eauto].
         destruct (relocate f i (Cache.cid frepr sp)) as [f1|] eqn:Em; [|eapply IH; eauto].
         pose proof (frame_relocate _ _ _ _ Em) as [W1 _].
         assert (H2 : Inv f1 s1) by (apply (Inv_ws_only frepr f f1 s1 (proj2 H1) W1); exact (proj1 H1)).
         destruct (reinit f1 s1 sp) as [[f2 s2] ok] eqn:Er.
         pose proof (reinit_inv _ _ _ _ _ _ H2 Er) as H3.
-        destruct sp; try (eapply IH; [exact H3|exact E]). eapply IH; [exact H2|exact E].
+        eapply IH; [exact H3|exact E].
       + eapply IH; [|exact E]. split; [eapply get_statepoint_false_sound; eauto|exact (proj2 H)].
   Qed.
 
@@ -381,7 +382,7 @@ Section P.
     intros f i d v H. unfold Cache.sp_load_view in H. destruct (sp_load f i) as [d'|] eqn:E; [|discriminate].
     unfold Cache.sp_load in E. unfold Repair.valid.
     destruct (get f (spf i)) as [[c|]|]; try discriminate.
-    destruct (loads_b (c_bytes c)) as [x| |] eqn:Eb; try discriminate.
+    destruct (loads_b (c_bytes c)) as [x| | |] eqn:Eb; try discriminate.
     rewrite (Hagree _ _ Eb).
     destruct x; try discriminate E; (destruct (str_eqb (Cache.cid frepr _) i) eqn:Ex; [reflexivity|discriminate E]).
   Qed.
@@ -654,7 +655,8 @@ Section P.
     - assert (Hk : i <> k) by (intro E; apply Hni; left; auto).
       assert (Hr : ~ In i rest) by (intro E; apply Hni; right; auto).
       destruct (get_statepoint f s false k) as [s1 [sp|e]] eqn:Eg.
-      + destruct (relocate f k (Cache.cid frepr sp)) as [f1|] eqn:Em; [|eapply IH; eauto].
+      + destruct (is_objb sp); simpl negb in H; cbv iota in H; [|eapply IH; eauto].
+        destruct (relocate f k (Cache.cid frepr sp)) as [f1|] eqn:Em; [|eapply IH; eauto].
         destruct (relocate_facts _ _ _ _ Em Hok) as [Hok1 [_ [_ V1]]].
         specialize (V1 i Hk Hv).
         destruct (reinit f1 s1 sp) as [[f2 s2] ok] eqn:Er.
@@ -662,8 +664,7 @@ Section P.
         assert (Hv2 : valid f2 i = true).
         { destruct (str_eq_dec i (cid sp)) as [E|E]; [subst i; apply V2; exact V1|].
           rewrite (valid_ext f1 f2 i (S2 i E)). exact V1. }
-        destruct sp; try (eapply IH; [exact Hr|exact Hok2|exact Hv2|exact H]).
-        eapply IH; [exact Hr|exact Hok1|exact V1|exact H].
+        eapply IH; [exact Hr|exact Hok2|exact Hv2|exact H].
       + eapply IH; eauto.
   Qed.
 
@@ -681,16 +682,17 @@ Section P.
       pose proof (GoodE_ensure_read i f s Hf Hg) as [x [Hx [Hc Ho]]].
       assert (Eg : get_statepoint f s false i = (ensure_read f s, Ok x)).
       { unfold Cache.get_statepoint. rewrite Hx. reflexivity. }
-      rewrite Eg in H. unfold Cache.cid in *. rewrite Hc in H.
+      rewrite Eg in H. rewrite Ho in H. simpl negb in H. cbv iota in H. unfold Cache.cid in *. rewrite Hc in H.
       unfold Repair.relocate in H. rewrite str_eqb_refl in H.
       destruct (reinit_restores f (ensure_read f s) x i Ho Hc (proj1 Hok) Hd (proj1 (proj2 Hok i)) (proj2 (proj2 Hok i)))
         as [f2 [s2 [Er Hv2]]].
       rewrite Er in H.
       destruct (reinit_facts _ _ _ _ _ _ Er Hok) as [Hok2 _].
-      destruct x; try discriminate Ho. eapply loop_keeps_valid; [exact Hk|exact Hok2|exact Hv2|exact H].
+      eapply loop_keeps_valid; [exact Hk|exact Hok2|exact Hv2|exact H].
     - destruct Hin as [E|Hin]; [congruence|].
       destruct (get_statepoint f s false k) as [s1 [sp|e]] eqn:Eg.
       + pose proof (get_statepoint_GoodE i f s k s1 _ Hf Hg Eg) as Hg1.
+        destruct (is_objb sp); simpl negb in H; cbv iota in H; [|eapply IH; eauto].
         destruct (relocate f k (Cache.cid frepr sp)) as [f1|] eqn:Em; [|eapply IH; eauto].
         destruct (relocate_facts _ _ _ _ Em Hok) as [Hok1 [C1 [D1 _]]].
         assert (Hd1 : get f1 (jdir i) = Some Dir) by (apply D1; auto).
@@ -699,8 +701,7 @@ Section P.
         destruct (reinit_facts _ _ _ _ _ _ Er Hok1) as [Hok2 [C2 [D2 [_ [_ R2]]]]].
         assert (Hf2 : FileGood i f2) by (intros c v Hc; rewrite C2 in Hc; eapply Hf1; eauto).
         pose proof (GoodE_regs i _ _ _ R2 Hg1) as Hg2.
-        destruct sp; try (eapply IH; [exact Hnd'|exact Hin|exact Hok2|apply D2; exact Hd1|exact Hg2|exact Hf2|exact H]).
-        eapply IH; [exact Hnd'|exact Hin|exact Hok1|exact Hd1|exact Hg1|exact Hf1|exact H].
+        eapply IH; [exact Hnd'|exact Hin|exact Hok2|apply D2; exact Hd1|exact Hg2|exact Hf2|exact H].
       + pose proof (get_statepoint_GoodE i f s k s1 _ Hf Hg Eg) as Hg1. eapply IH; eauto.
   Qed.
 
@@ -739,7 +740,7 @@ Section P.
     simpl in H.
     assert (Eg : get_statepoint f s false j = (ensure_read f s, Ok v)).
     { unfold Cache.get_statepoint. rewrite Hmiss. unfold Cache.sp_from_ws. rewrite Hg, Hs. reflexivity. }
-    rewrite Eg in H. unfold Cache.cid in *. rewrite Hc in H.
+    rewrite Eg in H. rewrite Ho in H. simpl negb in H. cbv iota in H. unfold Cache.cid in *. rewrite Hc in H.
     assert (Hab : jdir j <> jdir t) by (intro E; inversion E; congruence).
     assert (Er : rename f (jdir j) (jdir t) = FOk (move_tree (jdir j) (jdir t) (del_under (jdir t) f))).
     { apply rename_dir_ok; auto.
@@ -765,7 +766,7 @@ Section P.
         destruct v; try discriminate Ho. reflexivity. }
       rewrite El. reflexivity. }
     rewrite Ei in H.
-    destruct v; try discriminate Ho; (eapply loop_keeps_valid; [exact Hnr|exact Hok1|exact Hv1|exact H]).
+    eapply loop_keeps_valid; [exact Hnr|exact Hok1|exact Hv1|exact H].
   Qed.
 
 End P.
